@@ -182,6 +182,11 @@ def family_strategy():
         st.builds(lambda w, c: w + sp + c, st.sampled_from(BEFAFT), st.one_of(clock, date)),
         st.builds(lambda m1, m2, po: m1 + sp + m2 + sp + po, st.sampled_from(MODS), st.sampled_from(MODS), pod),
         st.builds(lambda wd, d: wd + sp + d, st.sampled_from(WEEKDAYS), st.one_of(date, st.builds(lambda d: "{}th".format(d), dom))),
+        # the same token twice (shared or cached values show when one word occurs at two offsets)
+        st.builds(lambda a, j, d1, d2: (d1 + sp + a + j + d2 + sp + a).strip(),
+                  st.one_of(st.sampled_from(NAMED_HOURS), st.sampled_from(PODS), st.sampled_from(REL), clock, st.sampled_from(WEEKDAYS)),
+                  join, day, day),
+        st.builds(lambda a, b: a + sp + b + sp + a, st.one_of(st.sampled_from(NAMED_HOURS), st.sampled_from(PODS), st.sampled_from(REL)), date),
         # every order of date / weekday / part of day / clock (gluing rules carry fields over)
         st.builds(lambda parts: sp.join(parts),
                   st.permutations(["{date}", "{wd}", "{pod}", "{clock}"]).flatmap(
